@@ -41,11 +41,20 @@ def showSnap (o : Obj Int Nat) : String :=
   let w := String.join (o.watchers.map fun w => if w.closed then "1" else "0")
   s!"v={v},tv={tv},l={o.level},e={showCErr o.err},d={if o.done then 1 else 0},w={w}"
 
-/-- settle: the top-of-loop exhaustion test after the last consumed arrival -/
-def settle (stream : Bool) (x : Nat) (st : LoopSt Int Nat Int) (o : Obj Int Nat) : Obj Int Nat :=
+/-- the arrivals among the items of a case (the part of the history that has not been consumed) -/
+def arrivalsOf (items : List CItem) : List (Arrival Int Nat) :=
+  items.filterMap fun i => match i with | .arr a => some a | .watch _ => none
+
+/-- settle: the top-of-loop exhaustion test after the last consumed arrival; `rest` = the part of the history
+    the test can see (the branch reports the context's error when the context's end is the next event, exactly
+    as `Correctable.run` does).  The harness ends the context only after it has taken the snapshot that follows
+    the previous arrival — i.e. after that exhaustion test — so `rest` is empty there; only a context end that is
+    the first item of a case is issued before the call (see `corrLine`). -/
+def settle (stream : Bool) (x : Nat) (st : LoopSt Int Nat Int) (o : Obj Int Nat)
+    (rest : List (Arrival Int Nat)) : Obj Int Nat :=
   if o.done then o
   else if exhausted stream st.errs.length st.replies.length x then
-    (o.set st.resp st.clevel (some (.incomplete st.errs st.replies.length)) true).getD o
+    (o.set st.resp st.clevel (some (exhaustedErr st.errs st.replies.length rest)) true).getD o
   else o
 
 def corrRun (qf : RepMap Int → Int × Int × Bool) (stream : Bool) (x : Nat) :
@@ -59,7 +68,7 @@ def corrRun (qf : RepMap Int → Int × Int × Bool) (stream : Bool) (x : Nat) :
     else match stepArrival qf stream x st o a with
       | none => ["SET-PANIC"]
       | some (st', o', _) =>
-        let o'' := settle stream x st' o'
+        let o'' := settle stream x st' o' []
         showSnap o'' :: corrRun qf stream x st' o'' rest
 
 def corrLine (line : String) : String :=
@@ -75,7 +84,10 @@ def corrLine (line : String) : String :=
         else
           let items := items.filterMap (fun a => a)
           let st : LoopSt Int Nat Int := {}
-          let o0 : Obj Int Nat := settle (stream == "1") x st init
+          let first : List (Arrival Int Nat) := match items with
+            | .arr (.ctxDone c) :: _ => [.ctxDone c]
+            | _ => []
+          let o0 : Obj Int Nat := settle (stream == "1") x st init first
           let o1 := [-1, 0, 1, 2, 3, 5].foldl (fun o l => o.watch l) o0
           let snaps := showSnap o1 :: corrRun (cqfEval kind k) (stream == "1") x st o1 items
           s!"id={id} snaps={String.intercalate "|" snaps}"
